@@ -147,6 +147,10 @@ class Maker:
                 return tuple(self.make(v, f"{name}.{i}", idx) for i, v in enumerate(sh))
             if isinstance(sh, list):
                 return [self.make(v, f"{name}.{i}", idx) for i, v in enumerate(sh)]
+            if isinstance(sh, dict):
+                return {k: self.make(v, f"{name}[{k}]", idx) for k, v in sh.items()}
+            if isinstance(sh, I.NS):
+                return I.NS(**{k: self.make(v, f"{name}.{k}", idx) for k, v in sh.__dict__.items()})
             return sh
         k = sh.kind
         if k in ("int", "real", "bool", "str"):
@@ -241,6 +245,12 @@ def _alts(sh):
         return [Shape(sh.kind, *sh.a, **c) for c in combos]
     if sh.kind == "opt":
         return [Shape("opt", x) for x in _alts(sh.a[0])]
+    if sh.kind == "const" and isinstance(sh.a[0], dict):
+        keys = list(sh.a[0])
+        combos = [{}]
+        for kk in keys:
+            combos = [{**c, kk: x} for c in combos for x in _alts(sh.a[0][kk])]
+        return [c for c in combos]
     return [sh]
 
 
